@@ -26,7 +26,24 @@ def random_token_seq(rng, lo, hi, alphabet=TOKENS):
 WS_GAP = [" ", "\t", "\n", "\n", "\n\n", "\r\n", "  ", "\n \n", "\x0c", " ", " "]
 HWS = ["", "", " ", "\t", "  ", " \t"]
 INNER_WS = ["", "", " ", " ", "\n", "\n  ", "\t", "\r\n ", "  "]
-TYPES = ["article", "Article", "BOOK", "inProceedings", "misc", "a", "x_1", "techreport", "Strin", "commen", "pre"]
+# block types with non-ASCII word characters, incl. letters that re.IGNORECASE / casefold identify with ASCII letters of the
+# keywords but str.lower() does not (long s, dotted capital I, dotless i, Kelvin sign)
+EDGE_TYPES = ["konferenzbeitr\u00e4ge", "\u0441\u0442\u0430\u0442\u044c\u044f", "\u017ftring", "STR\u0130NG", "str\u0131ng",
+              "\u01c4x", "\ufb01le", "\u212aey", "\u0661\u0662", "x\u00b2"]
+# characters at the very start / end of a document (byte order mark, NUL, zero-width and exotic separators)
+EDGE_CHARS = ["\ufeff", "\x00", "\u200b", "\u2060", "\xa0", "\x85", "\x1c", "\u2028", "\r", "\x0b", "\x0c", "\ufffe", "\U000e0001"]
+TYPES = ["article", "Article", "BOOK", "inProceedings", "misc", "a", "x_1", "techreport", "Strin", "commen", "pre"] + EDGE_TYPES[:5]
+
+
+def edge_wrap(rng, text):
+    """text with an edge character put in front of / behind it"""
+    c = rng.choice(EDGE_CHARS)
+    r = rng.random()
+    if r < 0.5:
+        return c + text
+    if r < 0.75:
+        return text + c
+    return c + text + rng.choice(EDGE_CHARS)
 KEYCH = "abcXYZ019.-:_/+"
 SAFE_ATOMS = ["a", "B", "c", "1", "2", " ", " ", "\n", ".", "-", "é", "ß", "\\{", "\\}", '\\"', "\\,", "\\=", "\\x", "\\\\a",
               "@.", "@ x", "#", "~", ":", "%", "$", "&", "(", ")", "and", "The", "\t", "\r\n", "é", "\U0001d538",
@@ -217,7 +234,7 @@ def gen_doc(rng, max_items=8, depth=3, entry_keys=None, string_keys=None, field_
             atoms = ["foo", "%", "bar", " ", "\n", "{", "}", '"', ",", "=", "@.", "\\", "x", "#", "é", "\t", "b a z",
                      "@w\n{", "@\n {", "a@b\x0c{", "@w\u00a0{", "\\\\{", "\\\\\\{"]
             mid = "".join(rng.choice(atoms) for _ in range(rng.randint(0, 6)))
-            raw = rng.choice(["%", "x", "foo", "}", ","]) + ((mid + rng.choice(["y", "%", "}", "=", "Z"])) if rng.random() < 0.7 else "")
+            raw = rng.choice(["%", "x", "foo", "}", ",", "%", "x", "\ufeff", "\x00", "\u200b"]) + ((mid + rng.choice(["y", "%", "}", "=", "Z"])) if rng.random() < 0.7 else "")
             items.append({"kind": "freetext", "raw": raw, "line": line0, "comment": raw})
             ast_items.append([4, _E(raw)])
         emit(raw)
@@ -241,7 +258,8 @@ def mutate(rng, text):
     if r < 0.5:
         return text[:i] + text[i + 1:]                    # delete one character
     if r < 0.75:
-        return text[:i] + rng.choice(['{', '}', '"', ',', '=', '@a{', '\\', '\n', '@comment{', '@string{']) + text[i:]
+        return text[:i] + rng.choice(['{', '}', '"', ',', '=', '@a{', '\\', '\n', '@comment{', '@string{', '{', '}', '"', '@a{',
+                                      '@\u017ftring{', '@STR\u0130NG{', '@\u0441\u0442\u0430\u0442\u044c\u044f{', '\ufeff']) + text[i:]
     if r < 0.85:
         j = rng.randrange(len(text))
         a, b = min(i, j), max(i, j)
@@ -254,7 +272,8 @@ def garbage(rng, n=None):
     n = n if n is not None else rng.randint(0, 40)
     pools = [lambda: chr(rng.randint(0, 127)), lambda: rng.choice('{}",=@\\\n \t#'), lambda: chr(rng.randint(128, 0x2fff)),
              lambda: chr(rng.randint(0x10000, 0x1ffff)), lambda: rng.choice("\x00\r \u0085𐏿"),
-             lambda: rng.choice("٣९５Ⅷ²ªǅΣ"), lambda: rng.choice(["@a{", "@é{", "@٣{", "@comment{", "@String {", "@_\t{"])]
+             lambda: rng.choice("٣९５Ⅷ²ªǅΣ"), lambda: rng.choice(["@a{", "@é{", "@٣{", "@comment{", "@String {", "@_\t{"]),
+             lambda: "@" + rng.choice(EDGE_TYPES) + rng.choice(["{", " {", "{k,", "{a = b}"]), lambda: rng.choice(EDGE_CHARS)]
     return "".join(rng.choice(pools)() for _ in range(n))
 
 
